@@ -384,6 +384,9 @@ func runC10Damage(w *lsw.World, d c10Damage, di int, B []byte, planFiles, otherF
 		}
 		return nil, label + ":ok", nontrivial
 	}
+	if os.Getenv("VERIF_TRACE") != "" {
+		fmt.Printf("TRACE damage %s -> error %s\n", desc, r.Err)
+	}
 	// error: no partial file at the output path
 	if statErr == nil {
 		return fail("partial-output", "restore failed (%s) but left a file of %d bytes at the output path", r.Err, len(got))
